@@ -5,6 +5,7 @@ go 1.23.4
 require (
 	github.com/davecgh/go-spew v1.1.2-0.20180830191138-d8f796af33cc
 	github.com/gofrs/uuid v4.4.0+incompatible
+	github.com/pkg/errors v0.9.1
 	github.com/siyul-park/uniflow v0.0.0
 )
 
@@ -16,7 +17,6 @@ require (
 	github.com/google/btree v1.1.3 // indirect
 	github.com/iancoleman/strcase v0.3.0 // indirect
 	github.com/leodido/go-urn v1.4.0 // indirect
-	github.com/pkg/errors v0.9.1 // indirect
 	golang.org/x/crypto v0.36.0 // indirect
 	golang.org/x/exp v0.0.0-20250305212735-054e65f0b394 // indirect
 	golang.org/x/net v0.37.0 // indirect
